@@ -13,7 +13,7 @@ COMPS = ["ns", "ew", "vt"]
 def gen_windows(rng, nw, n, dt):
     wins = []
     for _ in range(nw):
-        rec = pg.gen_record(rng, n=n, dt=dt, scale=float(10.0 ** rng.integers(-3, 4)))
+        rec = pg.gen_record(rng, n=n, dt=dt, scale=float(10.0 ** rng.integers(-12, 7)))   # from nm/s-sized to count-sized amplitudes
         u = rng.random()
         if u < 0.35:      # planted transient on one component
             k = str(rng.choice(COMPS)); i = int(rng.integers(0, n))
@@ -151,7 +151,7 @@ def run(ctx):
         alone = [keep([r])[0] for r in recs]
         if alone != base:
             ctx.violation("decision-depends-on-that-window-only", dict(case=dict(wins=wins, sta=sta, lta=lta, lo=lo, hi=hi), joint=base, alone=alone), seam="sta_lta_window_rejection")
-        cfac = float(rng.choice([1e-3, 0.5, 40.0]))
+        cfac = float(rng.choice([1e-9, 1e-3, 0.5, 40.0, 1e6]))
         scaled = [pg.make_srecord(dict(w, ns=(np.array(w["ns"]) * cfac).tolist(), ew=(np.array(w["ew"]) * cfac).tolist(), vt=(np.array(w["vt"]) * cfac).tolist())) for w in wins]
         if keep(scaled) != base:
             ctx.violation("unchanged-by-common-rescaling", dict(case=dict(wins=wins, sta=sta, lta=lta, lo=lo, hi=hi), factor=cfac), seam="sta_lta_window_rejection")
